@@ -21,6 +21,9 @@ type half struct {
 	segIdx   int
 	stalled  bool // reader side refuses to deliver (peer "stopped reading" is modelled by not reading)
 	written  int
+	writes   int
+	maxW     int
+	storm    bool // more writes than any scenario legitimately needs: a live-lock; the stream is cut
 }
 
 func newHalf(capacity int, segs []int) *half {
@@ -39,17 +42,37 @@ type StreamEnd struct {
 
 type StreamLink struct{ A, B *StreamEnd }
 
+// Storm reports whether either direction was cut because it exceeded MaxWrites.
+func (l *StreamLink) Storm() bool {
+	for _, h := range []*half{l.A.w, l.B.w} {
+		h.mu.Lock()
+		st := h.storm
+		h.mu.Unlock()
+		if st {
+			return true
+		}
+	}
+	return false
+}
+
 type StreamCfg struct {
 	BufBytes int   `json:"buf,omitempty"`    // per direction, default 256 KiB
 	SegsAB   []int `json:"segsAB,omitempty"` // chunk sizes returned to B's reads (cycled); empty = as much as fits
 	SegsBA   []int `json:"segsBA,omitempty"`
+	// MaxWrites per direction (default 200000): a safeguard against live-locks, which on a stream
+	// need no virtual time and would otherwise only end at the real-time watchdog
+	MaxWrites int `json:"maxWrites,omitempty"`
 }
 
 func NewStreamLink(cfg StreamCfg) *StreamLink {
 	if cfg.BufBytes <= 0 {
 		cfg.BufBytes = 256 << 10
 	}
+	if cfg.MaxWrites <= 0 {
+		cfg.MaxWrites = 200000
+	}
 	ab, ba := newHalf(cfg.BufBytes, cfg.SegsAB), newHalf(cfg.BufBytes, cfg.SegsBA)
+	ab.maxW, ba.maxW = cfg.MaxWrites, cfg.MaxWrites
 	return &StreamLink{
 		A: &StreamEnd{r: ba, w: ab, la: "mem-a", ra: "mem-b"},
 		B: &StreamEnd{r: ab, w: ba, la: "mem-b", ra: "mem-a"},
@@ -87,6 +110,11 @@ func (c *StreamEnd) Write(b []byte) (int, error) {
 	h := c.w
 	h.mu.Lock()
 	defer h.mu.Unlock()
+	h.writes++
+	if h.maxW > 0 && h.writes > h.maxW {
+		h.storm = true
+		return 0, io.ErrClosedPipe
+	}
 	written := 0
 	for written < len(b) {
 		for len(h.buf) >= h.capacity && !h.wclosed && !h.rclosed {
